@@ -219,10 +219,9 @@ class MetadataPdu(AbstractFileDirectiveBase):
         min_expected_len = current_idx + 7
         if metadata_pdu.pdu_file_directive.pdu_conf.file_flag == LargeFileFlag.LARGE:
             min_expected_len += 4
-        min_expected_len = max(min_expected_len, metadata_pdu.packet_len)
         # Minimal length: 1 byte + FSS (4 byte) + 2 empty LV (1 byte)
-        if len(data) < min_expected_len:
-            raise BytesTooShortError(min_expected_len, len(data))
+        if end_of_params < min_expected_len:
+            raise BytesTooShortError(min_expected_len, end_of_params)
         params = MetadataParams(False, ChecksumType.MODULAR, 0, "", "")
         params.closure_requested = bool(data[current_idx] & 0x40)
         params.checksum_type = ChecksumType(data[current_idx] & 0x0F)
